@@ -5,12 +5,18 @@ import zlib
 WBITS = {"gzip": zlib.MAX_WBITS | 16, "zlib": zlib.MAX_WBITS, "deflate": -zlib.MAX_WBITS}
 
 
+FORCE = None
+
+
 def compress(body: bytes, how):
     if not how:
         return body
     # a peer may use any window size (9..15) and any level (0 = stored blocks .. 9); both decided by the body
     k = zlib.crc32(body)
     w = 9 + k % 7
+    if FORCE is not None:  # (level, window) fixed by the caller
+        c = zlib.compressobj(FORCE[0], zlib.DEFLATED, {"gzip": 16 + FORCE[1], "zlib": FORCE[1], "deflate": -FORCE[1]}[how])
+        return c.compress(body) + c.flush()
     wbits = {"gzip": 16 + w, "zlib": w, "deflate": -w}[how]
     c = zlib.compressobj((6, 9, 1, 0, 6)[(k >> 8) % 5], zlib.DEFLATED, wbits)
     return c.compress(body) + c.flush()
